@@ -6,8 +6,9 @@ from props.enginea import run_engine_a
 LEVEL = "proof"
 FNS = ["normalize", "normalize1", "from_man_exp", "from_int", "mpf_add", "mpf_sub", "mpf_mul", "gmpy_mpf_mul",
        "mpf_div", "mpf_sqrt", "mpf_pos", "mpf_neg", "mpf_abs", "mpf_mul_int", "mpf_rdiv_int", "from_rational",
-       "mpf_sum", "mpf_perturb"]
-TAGS = {"ROUND"}
+       "mpf_sum", "mpf_perturb", "isqrt", "sqrtrem"]
+TAGS_EXTRA = {"VALUE"}
+TAGS = {"ROUND", "VALUE"}
 
 
 def make(rng, fn, n):
@@ -19,7 +20,8 @@ def make(rng, fn, n):
 
 
 def run(rep, tier_, rng):
-    run_engine_a(rep, "C02", tier_, rng, FNS + ["API_OPS", "API_F"], TAGS, n_quick=500, n_thorough=8000, make=make)
+    # addition/subtraction have by far the most intricate branch structure: give them 8x the cases
+    run_engine_a(rep, "C02", tier_, rng, FNS + ["mpf_add", "mpf_sub"] * 7 + ["mpf_sqrt", "mpf_div"] * 2 + ["API_OPS", "API_F"], TAGS, n_quick=500, n_thorough=8000, make=make)
     rep.coverage["api_level"] = "operators + - * / % with int/float/mpf operand mixes under random context precision " \
         "and rounding; fadd/fsub/fmul/fdiv/fneg with prec/dps/rounding/exact keywords; mpf() from int/float/mpf; " \
         "convert/mpmathify of Fraction; fsum/fdot under the property's side condition; sqrt with keywords"
